@@ -261,7 +261,8 @@ Definition take_M {T} (d : T) (cb : bool) (c : pcol T) (idx : pcol Z) : option (
   end.
 
 (* ================================================================== M : concat, interleave *)
-(* concat_primitives / concat_boolean: validity appended only if some input has nulls *)
+(* concat_primitives / concat_boolean (builder.append_array per input: values appended, validity
+   materialised only once some input has nulls; earlier inputs count as all valid) *)
 Definition nulls_or_true {T} (c : pcol T) : list bool :=
   match snd c with Some n => n | None => repeat true (length (fst c)) end.
 Definition some_has_nulls {T} (cs : list (pcol T)) : bool :=
@@ -311,6 +312,24 @@ Definition zip_M {A} (m : pcol bool) (ts : bool) (t : list (option A)) (fs : boo
   let len := length (fst m) in
   let '(out, filled) := fold_left (zip_step ts t fs f) (runs (prep_mask m)) ([], 0) in
   if filled <? len then zip_fill fs out f filled len else out.
+
+(* ================================================================== M : merge (merge.rs) *)
+(* like zip_impl, but array operands are consumed through running offsets (truthy_offset / falsy_offset);
+   scalar operands repeat row 0 and leave the offset alone *)
+Definition take_rows {A} (scalar : bool) (out src : list (option A)) (off n : nat) : list (option A) * nat :=
+  if scalar then (extend_scalar out src n, off) else (extend out src off (off + n), off + n).
+Definition merge_step {A} (ts : bool) (t : list (option A)) (fs : bool) (f : list (option A))
+           (st : list (option A) * nat * nat * nat) (se : nat * nat) : list (option A) * nat * nat * nat :=
+  let '(out, filled, toff, foff) := st in
+  let '(s, e) := se in
+  let '(out1, foff1) := if filled <? s then take_rows fs out f foff (s - filled) else (out, foff) in
+  let '(out2, toff1) := take_rows ts out1 t toff (e - s) in
+  (out2, e, toff1, foff1).
+Definition merge_M {A} (m : pcol bool) (ts : bool) (t : list (option A)) (fs : bool) (f : list (option A))
+  : list (option A) :=
+  let len := length (fst m) in
+  let '(out, filled, toff, foff) := fold_left (merge_step ts t fs f) (runs (prep_mask m)) ([], 0, 0, 0) in
+  if filled <? len then fst (take_rows fs out f foff (len - filled)) else out.
 
 (* ================================================================== M : nullif *)
 (* validity' = validity & !(mask_values & mask_validity)   (no validity: !(...)) *)
